@@ -46,6 +46,7 @@ type Out struct {
 	// cases that ended in a hang or a crash of the child process cost tens of seconds each: after a few of them the
 	// generation stops (what was printed so far carries the failing observations)
 	stuck int
+	ooms  int
 }
 
 // emit executes op on the real code and prints the line
@@ -54,7 +55,14 @@ func (o *Out) emit(prop string, op string, args ...string) {
 	o.id++
 	fmt.Fprintf(o.w, "%d %s %s %s => %s\n", o.id, prop, op, strings.Join(args, " "), obs)
 	o.w.Flush()
-	if strings.HasPrefix(obs, "hang") || strings.HasPrefix(obs, "crash") || strings.Contains(obs, "deadlock-or-hang") {
+	if strings.HasPrefix(obs, "crash alloc=oom") {
+		// a child that ran into its address-space limit dies at once: cheap, and expected of inputs that declare
+		// huge counts (open finding C10-count-driven-allocation); only a flood of them stops the generation
+		o.ooms++
+		if o.ooms >= 400 {
+			os.Exit(0)
+		}
+	} else if strings.HasPrefix(obs, "hang") || strings.HasPrefix(obs, "crash") || strings.Contains(obs, "deadlock-or-hang") {
 		o.stuck++
 		if o.stuck >= 4 {
 			os.Exit(0)
